@@ -278,7 +278,9 @@ def run(ctx):
                 new_in_batch.append(v); allput.append(v)
             elif op in (2, 3):
                 if st == 1:
-                    if val in new_in_batch:
+                    if old and val == max(old):
+                        old.remove(val)          # equal values: taking the old maximum is always legal and keeps more options open than taking the equal new item
+                    elif val in new_in_batch:
                         new_in_batch.remove(val)
                     elif val in old:
                         if val != max(old):
